@@ -161,6 +161,8 @@ def gen_case(rng, tier):
         "X0": L(X0), "X1": L(X1), "y0": y0, "ys": ys, "stat_rows": stat_rows,
         "xlayout": rng.choice(["C", "C", "F", "strided", "transposed", "f32"]),
         "xbig": xbig,
+        # label arrays as read from files written on another platform / by another tool
+        "ydtype": rng.choice(["int64"] * 6 + [">i8", ">i4", "int32", "uint8"]),
         # a prior component far from all data (no evidence reaches it during adaptation)
         "prior_far": rng.random() < 0.3,
         # memory-mapped / shared data is typically handed over read-only: a library that only
@@ -209,8 +211,8 @@ class Pool:
             for arr in (self.X0, self.X1, self.Xbig):
                 arr.flags.writeable = False
         self.y0_list = list(case["y0"])
-        self.y0_arr = np.array(case["y0"])
-        self.ys_arr = np.array(case["ys"])
+        self.y0_arr = np.array(case["y0"], dtype=np.dtype(case.get("ydtype", "int64")))
+        self.ys_arr = np.array(case["ys"], dtype=np.dtype(case.get("ydtype", "int64")))
         self.ys_list = list(case["ys"])
         self.init_c = A(case["init_c"])
         self.ubm = GMMMachine(c)
